@@ -219,4 +219,7 @@ def tcpAnswer (ch : ClientHello) : Except Err Bytes :=
 /-- Characters of an ordinary host name as carried on the wire: no white space, colon or bracket. -/
 def isNameChar (c : Nat) : Bool := !isAsciiSpace c && c != 58 && c != 91 && c != 93
 
+/-- What holds of the flow state between packets. -/
+def Flow.Inv (f : Flow) : Prop := f.pkt.data.head? = some [] ∧ (f.established = true → f.withheld = [])
+
 end DaeVerif.C06
